@@ -148,6 +148,11 @@ func (r Rng) mergeCandidates(w Win, h, v, spread int64, sp bool) []ID {
 			}
 		}
 		split(tgt, 0)
+		if r.Chance(0.25) {
+			// a second, independent partition of the same target on top of the first: columns crossing slabs, cells
+			// covered twice by voxels of which neither contains the other
+			split(tgt, 0)
+		}
 	}
 	if r.Chance(0.3) && len(out) > 0 {
 		out = append(out, out[r.Intn(len(out))]) // duplicate
